@@ -27,3 +27,10 @@ add("C05", CH + "; inductive step from an arbitrary well-formed state instead of
 add("C10", CH,
     "All-paths verdict (exact reals; A x B sizes 2x1 and 1x2 quick, up to 2x2/3x1 thorough) that union, difference, intersection and mergeLabels satisfy the cell-wise algebra of labelled time (every elementary cell between consecutive boundaries is labelled in the result iff the Boolean combination of the operands says so), with exact entry lists: one intersection entry per overlapping pair labelled a-b, fused union entries = connected components with labels joined in time order, difference = maximal runs with A's labels, mergeLabels keeps exactly A's overlapped intervals with B's labels in parentheses; point union = union of times with coinciding labels joined; operands unchanged.",
     NOTE, "DESIGN.md 3/C10")
+
+add("C12", CH + "; one inductive step from an arbitrary invariant-satisfying textgrid instead of operation histories",
+    "From any textgrid satisfying the representation invariant (<=3 tiers over 4 names, symbolic spans) one addTier (index -6..6 or None) / removeTier / renameTier / replaceTier equals the Python-list model, rejects duplicate names, only widens the span and re-establishes the invariant, so the steps compose to histories of any length; mergeTiers equals the union fold in selection order; the Textgrid-level crop/eraseRegion/insertSpace/editTimestamps obligations of C06-C09 (result tiers == tier-level operation, names/order kept, validate() true). Names and indices end up in dict keys and list.insert, which CrossHair concretises: for those dimensions the run is an exhaustive enumeration, the solver decides the span arithmetic.",
+    NOTE, "DESIGN.md 3/C12")
+add("C13", CH + "; snapshot-before == snapshot-after as the only postcondition",
+    "For every copy-returning tier and textgrid operation of the property (all modes, <=1 quick / <=2 thorough entries, arbitrary arguments incl. failing ones) receiver and argument snapshots (names, order, spans, entries) are unchanged on success and on exception; insertEntry/deleteEntry and every failing argument class of addTier/removeTier/renameTier/replaceTier leave the object exactly as before; Textgrid.save never mutates the textgrid and never opens the destination when validation or serialisation raises (io.open replaced by a recorder).",
+    NOTE + "; io.open, numToStr and json.dumps stubbed in the save obligations (bytes on disk outside the claim)", "DESIGN.md 3/C13")
